@@ -503,7 +503,7 @@ func c14run(r *ev.Run) {
 				hist = append(hist, [][2]int{{m, side}})
 			}
 		}
-		if cost <= 1 || (th && cost < 9) {
+		if cost <= 1 {
 			for m1 := 0; m1 < nm; m1++ {
 				for s1 := 0; s1 < 2; s1++ {
 					for m2 := 0; m2 < nm; m2++ {
